@@ -265,7 +265,13 @@ def run_values(case, viol, obs, keys):
 def run_history(case, viol, obs, keys):
     """Random call history on one SolverWrapper, mirrored by a shadow model; after each optimize compare status/optimum with z3."""
     rng = gen.rng_for(case["rs"])
-    s = SolverWrapper(**SO)
+    so_ = dict(SO)
+    if rng.random() < 0.3:
+        # the custom (signal based) time-out route of optimize(): same answers expected, far below the limit
+        so_.update({"time_limit": 30, "use_also_custom_timeout": True}); obs["c12.histories_custom_timeout"] += 1
+    elif rng.random() < 0.2:
+        so_.update({"time_limit": 30})
+    s = SolverWrapper(**so_)
     names = []; var = {}; lb = {}; ub = {}; typ = {}
     cons = []          # (coefs dict, op, rhs)
     obj = ({}, 0.0, "minimize")
@@ -363,6 +369,14 @@ def run_history(case, viol, obs, keys):
                 for i in names:
                     if vals[i] < lb[i] - 1e-6 or vals[i] > ub[i] + 1e-6:
                         viol.append({"sig": "C12/history/value-outside-bounds" + tag, "msg": f"{i}={vals[i]} not in [{lb[i]},{ub[i]}]; history {hist}"}); return
+                # ... its constraints, and they must be the values OF THIS RUN: the objective recomputed from them is the optimum
+                for co_, rel_, rhs_ in cons:
+                    lhs_ = sum(c_ * vals[i] for i, c_ in co_.items())
+                    if (rel_ == "<=" and lhs_ > rhs_ + 1e-6) or (rel_ == ">=" and lhs_ < rhs_ - 1e-6) or (rel_ == "==" and abs(lhs_ - rhs_) > 1e-6):
+                        viol.append({"sig": "C12/history/values-violate-a-constraint" + tag, "msg": f"{co_} {rel_} {rhs_} with values {vals}; history {hist}"}); return
+                ov_ = sum(c_ * vals[i] for i, c_ in obj[0].items()) + obj[1]
+                if abs(ov_ - float(exp)) > 1e-6 * max(1, abs(float(exp))):
+                    viol.append({"sig": "C12/history/values-are-not-those-of-this-run" + tag, "msg": f"objective recomputed from get_values() = {ov_}, optimum of this run {exp}; values {vals}; history {hist}"}); return
             else:
                 if st == "kOptimal":
                     viol.append({"sig": "C12/history/infeasible-reported-optimal" + tag, "msg": f"history {hist}"}); return
